@@ -49,7 +49,56 @@ const (
 )
 
 var wrNames = []string{"WOk", "WConflict", "WNotFound", "WErr"}
-var poutNames = []string{"POk", "PInsufficient", "PNotReady", "PCreateErr", "PGeneric"}
+
+// what the scripted provider's Create returns: index into createShapes.  A shape is the error chain,
+// outermost layer first: I = *InsufficientCapacityError, N = *NodeClassNotReadyError, C = *CreateError,
+// W = fmt.Errorf("...: %w", _); the innermost error is a plain errors.New.
+var createShapes = []string{"", "I", "N", "C", "-", "CWI", "CN", "WI", "WN", "IC", "WC", "CWN", "WCWI"}
+
+func layersG(shape string) string {
+	m := map[byte]string{'I': "YInsufficient", 'N': "YNotReady", 'C': "YCreateErr", 'W': "YWrap"}
+	var out []string
+	for i := 0; i < len(shape); i++ {
+		if n, ok := m[shape[i]]; ok {
+			out = append(out, n)
+		}
+	}
+	return kit.GList(out)
+}
+
+var poutNames = func() []string {
+	out := make([]string, len(createShapes))
+	for i, sh := range createShapes {
+		switch i {
+		case 0:
+			out[i] = "POk"
+		default:
+			out[i] = "(PFail " + layersG(sh) + ")"
+		}
+	}
+	return out
+}()
+
+var poutShort = []string{"Ok", "Insufficient", "NotReady", "CreateErr", "Generic", "CreateErr>wrap>Insufficient", "CreateErr>NotReady",
+	"wrap>Insufficient", "wrap>NotReady", "Insufficient>CreateErr", "wrap>CreateErr", "CreateErr>wrap>NotReady", "wrap>CreateErr>wrap>Insufficient"}
+
+// createError builds the error chain of a shape.
+func createError(shape string) error {
+	var err error = errors.New("injected create failure")
+	for i := len(shape) - 1; i >= 0; i-- {
+		switch shape[i] {
+		case 'I':
+			err = cloudprovider.NewInsufficientCapacityError(err)
+		case 'N':
+			err = cloudprovider.NewNodeClassNotReadyError(err)
+		case 'C':
+			err = cloudprovider.NewCreateError(err, "CErr", "injected create error")
+		case 'W':
+			err = fmt.Errorf("provider wrapped: %w", err)
+		}
+	}
+	return err
+}
 
 type plan struct {
 	Fin, Create, DelLaunch int
@@ -100,7 +149,7 @@ func (p plan) faults() []string {
 	}
 	add("fin", p.Fin)
 	if p.Create != 0 {
-		f = append(f, "create="+poutNames[p.Create][1:])
+		f = append(f, "create="+poutShort[p.Create])
 	}
 	add("del_launch", p.DelLaunch)
 	if p.ListReg {
@@ -176,6 +225,7 @@ type world struct {
 	cacheSetAt time.Time
 	// Go-side observations
 	createWithoutFinalizer bool
+	createShapes           []string
 	listHit                map[string]bool
 	hookHit                bool
 	unexpected             []string
@@ -444,6 +494,7 @@ func (p *prov) Create(ctx context.Context, nc *v1.NodeClaim) (*v1.NodeClaim, err
 	o := w.plan.Create
 	w.real.Create = o
 	w.effs = append(w.effs, "ECreate "+poutNames[o])
+	w.createShapes = append(w.createShapes, poutShort[o])
 	// direct observation for create_after_finalizer: what does the API server hold right now?
 	w.inRec = false
 	cur := &v1.NodeClaim{}
@@ -454,15 +505,8 @@ func (p *prov) Create(ctx context.Context, nc *v1.NodeClaim) (*v1.NodeClaim, err
 	if string(nc.UID) != w.uid {
 		w.unexpectedCall("Create for another UID")
 	}
-	switch o {
-	case 1:
-		return nil, cloudprovider.NewInsufficientCapacityError(errors.New("injected"))
-	case 2:
-		return nil, cloudprovider.NewNodeClassNotReadyError(errors.New("injected"))
-	case 3:
-		return nil, cloudprovider.NewCreateError(errors.New("injected"), "CErr", "injected create error")
-	case 4:
-		return nil, errors.New("injected generic create failure")
+	if o != 0 {
+		return nil, createError(createShapes[o])
 	}
 	id := p.made
 	p.made++
